@@ -22,7 +22,8 @@ from crosshair.libimpl.builtinslib import ModelingDirector, RealBasedSymbolicFlo
 import crosshair.statespace as _ss
 import crosshair.core as _core
 
-from .base import Failure, ConcreteSym, AssumeFailed, HarnessError, enc, dec
+from .base import Failure, ConcreteSym, AssumeFailed, HarnessError, PathWallTimeout, enc, dec
+import signal
 
 try:  # CrossHair's own test for "this TypeError is about a proxy, not about the code under test"
     from crosshair.core import suspected_proxy_intolerance_exception
@@ -281,6 +282,14 @@ def explore(harness, part, budget_s=60.0, per_path_timeout=20.0, max_paths=10 **
     res = dict(paths=0, confirmed=0, unknown=0, ignored=0, exhausted=False, violations={}, viol_paths=0,
                tags={}, nontrivial=0, samples=[], audit=dict(checked=0, mismatches=[]), errors=[],
                unknown_reasons={})
+    wall_path_s = max(5.0, per_path_timeout)
+
+    def _on_alarm(signum, frame):
+        raise PathWallTimeout()
+    try:
+        signal.signal(signal.SIGALRM, _on_alarm)
+    except ValueError:      # not in the main thread: no watchdog
+        pass
     q0, s0 = STATS['queries'], STATS['solver_s']
     t0 = process_time()
     w0 = time.perf_counter()
@@ -301,7 +310,16 @@ def explore(harness, part, budget_s=60.0, per_path_timeout=20.0, max_paths=10 **
                     verdict = None
                     realised = None
                     with ExceptionFilter() as ef, ResumedTracing():
-                        verdict = harness(sym, part)
+                        try:
+                            signal.setitimer(signal.ITIMER_REAL, wall_path_s)
+                            try:
+                                verdict = harness(sym, part)
+                            finally:
+                                signal.setitimer(signal.ITIMER_REAL, 0)
+                        except PathWallTimeout:
+                            # the code under test did not come back: report as a violation candidate (replayed like any other)
+                            verdict = Failure('non-termination:path-wall-timeout',
+                                              'path exceeded %.0f s wall clock inside the code under test' % wall_path_s)
                         if twin and verdict is None:
                             verdict = Failure('twin', 'reachability twin: final assertion reached')
                         want_sample = len(res['samples']) < n_samples
@@ -343,6 +361,10 @@ def explore(harness, part, budget_s=60.0, per_path_timeout=20.0, max_paths=10 **
                         enc_inputs = None
                         if realised is not None:
                             enc_inputs = {k: enc(v) for k, v in realised.items()}
+                        if verdict is not None and verdict.sig == 'non-termination:path-wall-timeout':
+                            res['wall_timeouts'] = res.get('wall_timeouts', 0) + 1
+                            if res['wall_timeouts'] >= 2:
+                                stop = True
                         if verdict is not None:
                             res['viol_paths'] += 1
                             if verdict.sig not in res['violations']:
@@ -361,7 +383,13 @@ def explore(harness, part, budget_s=60.0, per_path_timeout=20.0, max_paths=10 **
                             res['audit']['checked'] += 1
                             try:
                                 cs = ConcreteSym({k: dec(v) for k, v in enc_inputs.items()})
-                                cres = harness(cs, part)
+                                signal.setitimer(signal.ITIMER_REAL, wall_path_s)
+                                try:
+                                    cres = harness(cs, part)
+                                except PathWallTimeout:
+                                    cres = Failure('non-termination:path-wall-timeout', 'concrete re-run timed out')
+                                finally:
+                                    signal.setitimer(signal.ITIMER_REAL, 0)
                                 csig = cres.sig if cres is not None else None
                                 if cres is not None and cres.classify is not None:
                                     csig = str(cres.classify(part, dict(cs.inputs)))
